@@ -266,12 +266,21 @@ inductive ShutdownPlan where
   | write
 deriving Repr, DecidableEq
 
-/-- `keeps` = a GOAWAY whose identifier is not larger than the new one was sent before.  (Here the
-    driver shares the error state with nobody, so `check_connection_error` is `d.handled`.) -/
-def shutdownPlan (d : Drv) (keeps : Bool) : ShutdownPlan :=
-  match d.handled with
+/-- the plan, given what `check_connection_error` answered.
+    `keeps` = a GOAWAY whose identifier is not larger than the new one was sent before. -/
+def shutdownPlanOf (chk : Option CErr) (keeps : Bool) : ShutdownPlan :=
+  match chk with
   | some h => .report h
   | none => if keeps then .nothing else .write
+
+/-- the plan over the shared error state (request handles may have written the cell): the check
+    looks at `handled` AND the cell (`checkError`); engine `hnd5` -/
+def shutdownPlanShared (s : H3.ErrCell.State) (keeps : Bool) : ShutdownPlan :=
+  shutdownPlanOf (checkError s).2 keeps
+
+/-- the plan of a driver that shares the error state with nobody (engines `flt` / `flt5`): then
+    `check_connection_error` is `d.handled` (`C05_shutdownPlan_is_the_check`). -/
+def shutdownPlan (d : Drv) (keeps : Bool) : ShutdownPlan := shutdownPlanOf d.handled keeps
 
 /-- `ConnectionInner::shutdown` as a whole; `w` = what the GOAWAY write answers if it is made -/
 def shutdownEntry (d : Drv) (keeps : Bool) (w : Option SErr) : Drv × Option CErr :=
